@@ -422,7 +422,17 @@ def do_replay(prop, path, seed):
         rec = json.load(f)
     ctx = Ctx(prop, rec.get("tier", "quick"), rec.get("seed", seed))
     check_repo_binding()
-    mod.replay(ctx, unjson(rec["case"]))
+    case = unjson(rec["case"])
+    if isinstance(case, dict) and "first_use_scenario" in case:
+        # generic: a first use in a fresh child process, pre-empted at the recorded library line (vf/firstuse.py)
+        from . import firstuse
+        r = firstuse._child(case["first_use_scenario"], case["switch_after_library_line"], 60)
+        print("child:", r)
+        if r and r["fired"] and not r["stuck"] and not (r["a_ok"] and r["b_ok"]):
+            ctx.violation(rec["key"], case, f"got {r['a']} / {r['b']}; warm {r['a_warm']} / {r['b_warm']}")
+        ctx.case(1)
+    else:
+        mod.replay(ctx, case)
     known = load_known()
     kf = {f["key"] for f in known.get("findings", []) if f["property"] == prop}
     rc = 0
